@@ -2,7 +2,6 @@ package props
 
 import (
 	"fmt"
-	"math"
 	"strings"
 	"testing"
 	"time"
@@ -30,8 +29,8 @@ type randScaleCase struct {
 
 var rsEquValues = []string{"a{s}", "a{s}", "a{s}", "a{s}", "a{p}", "1", "a0", "U", "a{s}+1", "a{i}", "2-a{s}", "X"}
 var rsBodyLines = []string{"dat 0", "e{i} equ 1", "e{i} equ 1", "e{i} equ 1", "e{i} equ a{i}", "x{i}", ";c", "dat a{i}", "for a{s}\ndat 1\nrof", "for 1\nf{i} equ 1\nrof", "for 0\nrof"}
-var rsPlainLines = []string{"dat a{i}", "l{i} dat l{p}", "l{i}", ";c", "dat 0, l{i}", "l{i}: dat e{p}", "jmp l{s}"}
-var rsForHeads = []string{"for a{i}", "for a{i}", "for a{i}", "for 1", "for 0", "l{i} k{i} for 1", "for a{p}", "b{i} for a0", "for e{p}", "for f{p}"}
+var rsPlainLines = []string{"U{i} equ 1", "U{i} equ U{s}", "dat a{i}", "l{i} dat l{p}", "l{i}", ";c", "dat 0, l{i}", "l{i}: dat e{p}", "jmp l{s}"}
+var rsForHeads = []string{"for a{i}", "for a{i}", "for a{i}", "for 1", "for 0", "l{i} k{i} for 1", "for a{p}", "b{i} for a0", "for e{p}", "for f{p}", "for X", "for S"}
 
 func genRandScaleCase(t *rapid.T) randScaleCase {
 	var c randScaleCase
@@ -48,6 +47,9 @@ func genRandScaleCase(t *rapid.T) randScaleCase {
 	case 3:
 		c.Prefix = []string{"for 1", "for 1"}
 		c.Suffix = []string{"rof", "rof"}
+	case 4: // one value that names a symbol of every unit
+		c.Prefix = []string{"S equ 0{+" + pick("sumof", []string{"U", "a", "e"}) + "*}", "for 1"}
+		c.Suffix = []string{"rof"}
 	}
 	// how the chain of a-symbols ends
 	switch rapid.IntRange(0, 4).Draw(t, "chainend") {
@@ -112,6 +114,15 @@ func randScaleText(c randScaleCase, n int) string {
 	}
 	rn = strings.NewReplacer("{n}", fmt.Sprint(n))
 	for _, l := range c.Prefix {
+		// {+U*} stands for +U1+U2+...+Un
+		if i := strings.Index(l, "{+"); i >= 0 && strings.HasSuffix(l, "*}") {
+			name := l[i+2 : len(l)-2]
+			var sum strings.Builder
+			for k := 1; k <= n; k++ {
+				fmt.Fprintf(&sum, "+%s%d", name, k)
+			}
+			l = l[:i] + sum.String()
+		}
 		sb.WriteString(rn.Replace(l) + "\n")
 	}
 	for i := 1; i <= n; i++ {
@@ -135,10 +146,8 @@ func judgeRandScaleCase(t testing.TB) func(c randScaleCase, rec *hx.Rec) string 
 		}
 		cfg := replCfgs[0]
 		t1text, t5text := randScaleText(c, c.N), randScaleText(c, 5*c.N)
-		// an estimate that is infinite means a count the estimator cannot bound; with these
-		// templates that is a count that cannot be evaluated at all (a cycle, an undefined
-		// name), which costs an error, not an expansion
-		if est := estimate(t5text, cfg); est > 3e6 && !math.IsInf(est, 1) {
+		// (counts that cannot be evaluated at all - a cycle, an undefined name - are bounded by 1)
+		if est := estimate(t5text, cfg); est > 3e6 {
 			if rec != nil {
 				rec.Discard("expansion_estimate_above_bound")
 			}
@@ -203,7 +212,7 @@ func TestC05_RandomScaling(t *testing.T) {
 	}
 	hx.Run(t, hx.Prop[randScaleCase]{
 		ID: "C05", Sub: "randomscaling", Checks: hx.Scale(12, 1200),
-		Rule: "time proportional to input size on drawn families: a unit of 1..4 line templates (EQU definitions that refer to the next, the previous, a shared or an undefined name; FOR blocks counted by such symbols, with bodies that define further symbols or nest further blocks; labelled lines that refer to their neighbours) is repeated n = 2500..4000 and 5n times between a drawn prefix and suffix, half of the time after n repetitions of one or two definition templates (enclosing blocks, a long EQU value, a chain end that is a number, a cycle or a label); inputs whose own expansion estimate exceeds 3*10^6 tokens are discarded; same timing rule as the sweep (more than 12 times the time for 5 times the input, above 300 ms, confirmed by re-measuring). Non-trivial: the time grows at least threefold; distinct by case hash.",
-		Gen: genRandScaleCase, Judge: judgeRandScaleCase(t),
+		Rule: "time proportional to input size on drawn families: a unit of 1..4 line templates (EQU definitions that refer to the next, the previous, a shared or an undefined name; FOR blocks counted by such symbols, with bodies that define further symbols or nest further blocks; labelled lines that refer to their neighbours) is repeated n = 2500..4000 and 5n times between a drawn prefix and suffix, half of the time after n repetitions of one or two definition templates (enclosing blocks, a long EQU value, one value that names a symbol of every unit, a chain end that is a number, a cycle or a label); inputs whose own expansion estimate exceeds 3*10^6 tokens are discarded; same timing rule as the sweep (more than 12 times the time for 5 times the input, above 300 ms, confirmed by re-measuring). Non-trivial: the time grows at least threefold; distinct by case hash.",
+		Gen:  genRandScaleCase, Judge: judgeRandScaleCase(t),
 	})
 }
